@@ -3,7 +3,7 @@
 From Coq Require Import List QArith ZArith Bool Lia.
 From PyrexLib Require Import Interp.
 From PyrexModel Require Import AntennaModel AntennaSpec.
-From PyrexProofs Require Import C09_struct C09_sum C09_sys C09_sysm.
+From PyrexProofs Require Import C09_struct C09_sum C09_sys C09_sysm C09_fir.
 Import ListNotations.
 Open Scope Q_scope.
 
@@ -60,24 +60,24 @@ Qed.
 (* antenna system: every entry of all_waveforms is the (linear) front end applied to the sum of
    ALL received signals on its grid *)
 Lemma s_all_pure_are_sums : forall sc sigs l,
-  noisy (ant_cfg sc) = false ->
+  noisy (ant_cfg sc) = false -> fe_taps sc = [] ->
   Forall (fun s => wf_window (s_times s)) l ->
   Forall2 sig_eq (map (fun s => s_fw_pure sc sigs (s_times s)) l)
     (map (fun s => mkSig (s_times s) (map (fun t => sum_at sigs t * fe_scale sc) (s_times s))) l).
 Proof.
-  intros sc sigs l Hn Hw. induction Hw as [|s l Hs Hw IH]; simpl; constructor; auto.
-  destruct (sys_full_waveform_is_sum_lemma sc (s_fresh sigs) (s_times s) Hn Hs) as (_ & E).
+  intros sc sigs l Hn Ht Hw. induction Hw as [|s l Hs Hw IH]; simpl; constructor; auto.
+  destruct (sys_full_waveform_is_sum_lemma sc (s_fresh sigs) (s_times s) Hn Ht Hs) as (_ & E).
   rewrite s_fw_noiseless in E by exact Hn. exact E.
 Qed.
 
 Lemma sys_all_waveforms_are_sums_lemma : forall sc h,
-  noisy (ant_cfg sc) = false -> invalidate (ant_cfg sc) = true ->
+  noisy (ant_cfg sc) = false -> invalidate (ant_cfg sc) = true -> fe_taps sc = [] ->
   Forall (fun s => wf_window (s_times s)) (received h) ->
   Forall2 sig_eq (snd (s_all_waveforms sc (s_final sc s_init h)))
     (map (fun s => mkSig (s_times s) (map (fun t => sum_at (received h) t * fe_scale sc) (s_times s)))
          (received h)).
 Proof.
-  intros sc h Hn Hi Hw.
+  intros sc h Hn Hi Ht Hw.
   destruct (s_final_spec sc h s_init Hn Hi (SysInv_init sc)) as (I & S).
   destruct (s_all_waveforms_spec sc _ Hn Hi I) as (A1 & _).
   rewrite A1, S. fold (received h). unfold s_all_pure.
@@ -142,11 +142,29 @@ Proof.
 Qed.
 
 Example system_example :
-  let sc := mkSConfig (cfg_plain true) 3 2 in
+  let sc := mkSConfig (cfg_plain true) 3 2 [] in
   wf_window [4;5;6;7] /\
   map Qred (s_values (snd (s_full_waveform sc (mkS (fresh [f9_s1; f9_s2]) [] [] []) [4;5;6;7]))) = [6;14;12;10] /\
   lead_in_n sc [4;5;6;7] = 4%Z.
 Proof.
   cbn zeta. split; [|split; vm_compute; reflexivity].
   unfold wf_window. split; [|simpl; lia]. simpl. repeat split; reflexivity.
+Qed.
+
+(* a delay line (3 samples) behind gain 2 with a lead-in of 6: hypotheses of sys_fir_waveform hold on a
+   window that starts inside the first signal, and the waveform is the delayed doubled sum *)
+Example fir_system_example :
+  let sc := mkSConfig (cfg_plain true) 6 2 [0;0;0;1] in
+  let ts := [4;5;6;7] in
+  wf_window ts /\ uniform ts /\
+  (length (fe_taps sc) <= S (Z.to_nat (lead_in_n sc ts)))%nat /\
+  map Qred (s_values (snd (s_full_waveform sc (mkS (fresh [f9_s1; f9_s2]) [] [] []) ts))) = [2;4;6;6] /\
+  map Qred (map (fir_response (fe_taps sc) (fun u => sum_at [f9_s1; f9_s2] u * 2) 1) ts) = [2;4;6;6].
+Proof.
+  cbn zeta. split; [|split; [|split; [|split]]].
+  - unfold wf_window. split; [|simpl; lia]. simpl. repeat split; reflexivity.
+  - intros j Hj. simpl in Hj. do 4 (destruct j as [|j]; [vm_compute; reflexivity|]). lia.
+  - vm_compute. lia.
+  - vm_compute. reflexivity.
+  - vm_compute. reflexivity.
 Qed.
